@@ -371,7 +371,7 @@ void FuzzRecord(const uint8_t* data, size_t size, const Result& r) {
     fflush(stderr);
     abort();   // libFuzzer stores the input as crash artifact
   }
-  if (g_execs % 512 == 0) FlushStats();
+  if (g_execs % 32 == 0) FlushStats();
 }
 
 // ---------------------------------------------------------------- worker mode
